@@ -285,7 +285,9 @@ func LiveMPD(a *asset, mpdName string, cfg *ResponseConfig, drmCfg *drm.DrmConfi
 			if err != nil {
 				return nil, fmt.Errorf("adjustASForSegmentNumber: %w", err)
 			}
-			mpd.PublishTime = mpd.AvailabilityStartTime
+			if cfg.liveMPDType() == segmentNumber { // not for image sets inside a SegmentTimeline MPD
+				mpd.PublishTime = mpd.AvailabilityStartTime
+			}
 		default:
 			return nil, fmt.Errorf("unknown mpd type")
 		}
